@@ -26,7 +26,7 @@ class C18(Prop):
     assumptions = []
 
     def gen(self, tier, rng):
-        reps = 60 if tier == "quick" else 600
+        reps = 60 if tier == "quick" else 2400
         g = 0
         for _ in range(reps):
             g += 1
